@@ -62,6 +62,24 @@ def find_witness(pid, obligation):
             code = unit[5:]
             rows_path = os.path.join(VERIF, "specs", "templates", f"{code}_rows.json")
             ok, err = build_witness()
+            if ok and pid == "C16":
+                # k spoken zeros + a spelled number -> k zeros + its digits
+                zero = {"en": "zero", "fr": "zéro", "es": "cero", "pt": "zero", "it": "zero", "de": "null", "nl": "nul"}
+                phrases = {"en": [("one million", "1000000"), ("one hundred", "100"), ("one thousand", "1000"), ("twenty", "20")],
+                           "fr": [("un million", "1000000"), ("cent", "100"), ("mille", "1000")],
+                           "es": [("un millón", "1000000"), ("cien", "100"), ("mil", "1000")],
+                           "pt": [("um milhão", "1000000"), ("cem", "100"), ("mil", "1000")],
+                           "it": [("un milione", "1000000"), ("un miliardo", "1000000000"), ("cento", "100"), ("mille", "1000")],
+                           "de": [("eine million", "1000000"), ("hundert", "100"), ("tausend", "1000")],
+                           "nl": [("een miljoen", "1000000"), ("honderd", "100"), ("duizend", "1000")]}
+                for k in (1, 2):
+                    for ph, dg in phrases.get(code, []):
+                        w = {"kind": "call", "fn": "text2digits", "lang": code, "text": (zero[code] + " ") * k + ph,
+                             "expect": {"equals": "Ok(%s)" % json.dumps("0" * k + dg)}}
+                        p = subprocess.run([wbin("t2n_call"), json.dumps(w)], capture_output=True, text=True, timeout=20)
+                        if p.returncode == 1:
+                            w["what"] = p.stdout.strip().replace("\n", " | ")
+                            return w
             if ok and os.path.exists(rows_path):
                 for row in json.load(open(rows_path)):
                     if row.get("expect") is None:
